@@ -281,3 +281,109 @@ pub fn replay(args: &Args, s: &mut Summary) {
         }
     });
 }
+
+// ---------------------------------------------------------------------------
+// impl -> spec: random long record sequences, one event per line (one trace per section)
+fn keys_of(sec: &str) -> Vec<(&'static str, &'static str)> {
+    // (key, type)
+    match sec {
+        "General" => vec![("AudioFilename", "path"), ("AudioLeadIn", "i32"), ("PreviewTime", "i32"), ("SampleSet", "bank"), ("SampleVolume", "i32"),
+                          ("StackLeniency", "f"), ("Mode", "mode"), ("LetterboxInBreaks", "flag"), ("SpecialStyle", "flag"),
+                          ("WidescreenStoryboard", "flag"), ("EpilepsyWarning", "flag"), ("SamplesMatchPlaybackRate", "flag"),
+                          ("Countdown", "countdown"), ("CountdownOffset", "i32")],
+        "Editor" => vec![("DistanceSpacing", "f"), ("BeatDivisor", "i32"), ("GridSize", "i32"), ("TimelineZoom", "f")],
+        "Metadata" => vec![("Title", "str"), ("TitleUnicode", "str"), ("Artist", "str"), ("ArtistUnicode", "str"), ("Creator", "str"),
+                           ("Version", "str"), ("Source", "str"), ("Tags", "str"), ("BeatmapID", "i32"), ("BeatmapSetID", "i32")],
+        _ => vec![("HPDrainRate", "f"), ("CircleSize", "f"), ("OverallDifficulty", "od"), ("ApproachRate", "ar"), ("SliderMultiplier", "sm"),
+                  ("SliderTickRate", "tr")],
+    }
+}
+
+fn random_record(sec: &str, rng: &mut Rng) -> Value {
+    match sec {
+        "Events" => {
+            let t = *rng.pick(&["bg", "video", "sprite", "break", "break", "other", "bad"]);
+            json!({"t": t, "f": *rng.pick(&["a.jpg", "b.png", "v.mp4", "V.AVI", "ab", "p\\q.jpg", ""]), "n": *rng.pick(&[2, 3, 3, 4, 5, 5]),
+                   "ac": if rng.chance(1, 8) { "bad" } else { "num" }, "a": *rng.pick(&[100, 300, -50]),
+                   "bc": if rng.chance(1, 8) { "bad" } else { "num" }, "b": *rng.pick(&[200, 50, 900])})
+        }
+        "Colours" => {
+            let k = *rng.pick(&["Combo1", "Combo2", "Combo", "SliderBorder", "X", "SliderTrackOverride"]);
+            json!({"k": k, "combo": k.starts_with("Combo"), "r": *rng.pick(&[0, 255, 17]), "g": *rng.pick(&[2, 200]), "b": *rng.pick(&[3, 99]),
+                   "n": *rng.pick(&[2, 3, 3, 3, 4, 4, 5]), "cc": if rng.chance(1, 8) { "bad" } else { "ok" }})
+        }
+        _ => {
+            if rng.chance(1, 12) {
+                return json!({"k": *rng.pick(&["Foo", "", "mode", "#nocolon"]), "vc": "int", "vi": 1, "vs": ""});
+            }
+            let keys = keys_of(sec);
+            let (k, ty) = *rng.pick(&keys);
+            let (vc, vi, vs): (&str, i64, &str) = if ty == "str" || ty == "path" {
+                if rng.chance(1, 6) { ("empty", 0, "") } else { ("str", 0, *rng.pick(&["a", "a b", "x:y", "p\\q", "Soft", "[General]", "osu file format v9"])) }
+            } else if (ty == "bank" || ty == "countdown") && rng.chance(1, 3) {
+                ("str", 0, *rng.pick(&["Soft", "Half speed", "Normal", "Drum", "None", "soft"]))
+            } else {
+                match rng.below(16) {
+                    0 => ("nan", 0, ""),
+                    1 => ("inf", 0, ""),
+                    2 => ("empty", 0, ""),
+                    3 => ("garbage", 0, ""),
+                    4 => ("big", 0, ""),
+                    5 => ("cmt", 2, ""),
+                    6 => ("colon", 2, ""),
+                    7 | 8 => ("float", *rng.pick(&[25, 950, 30, 1000, 45, 360, 395]), ""),
+                    9 if matches!(ty, "i32" | "flag" | "mode") => (*rng.pick(&["max", "min", "over", "under"]), 0, ""),
+                    _ => ("int", *rng.pick(&[0, 1, 2, 3, 5, -1, 8, 9]), ""),
+                }
+            };
+            json!({"k": k, "vc": vc, "vi": vi, "vs": vs})
+        }
+    }
+}
+
+pub fn record(args: &Args, s: &mut Summary) {
+    let trace = args.opt("trace").expect("--trace");
+    let sec = args.opt("section").expect("--section").to_string();
+    let runs = args.opt_usize("runs", 10);
+    let nlines = args.opt_usize("lines", 60);
+    let mut rng = Rng::new(args.seed);
+    let mut out: Vec<Value> = vec![];
+    for run in 0..runs {
+        out.push(json!({"ev": "Reset", "run": run}));
+        let mut text = format!("osu file format v14\n\n[{sec}]\n");
+        macro_rules! go { ($T:ty, $f:ident, $proj:expr) => {{
+            let mut st = <$T as DecodeBeatmap>::State::create(14);
+            for _ in 0..nlines {
+                let rec = random_record(&sec, &mut rng);
+                let line = spell_record(&sec, &rec, &mut rng);
+                text.push_str(&line);
+                text.push('\n');
+                let r = guarded(&format!("records record {line:?}"), || {
+                    let ok = <$T>::$f(&mut st, &line).is_ok();
+                    let d = rosu_map::from_str::<$T>(&text).unwrap();
+                    (ok, $proj(&d))
+                });
+                s.checks += 1;
+                match r {
+                    Err(p) => { s.mismatch("panic", json!({"line": line, "panic": p})); break; }
+                    Ok((ok, stv)) => out.push(json!({"ev": "Rec", "r": rec, "ok": ok, "st": stv, "line": line})),
+                }
+            }
+        }} }
+        match sec.as_str() {
+            "General" => go!(General, parse_general, proj_general),
+            "Editor" => go!(Editor, parse_editor, proj_editor),
+            "Metadata" => go!(Metadata, parse_metadata, proj_metadata),
+            "Difficulty" => go!(Difficulty, parse_difficulty, |d: &Difficulty| json!({"HPDrainRate": sc(d.hp_drain_rate as f64), "CircleSize": sc(d.circle_size as f64),
+                "OverallDifficulty": sc(d.overall_difficulty as f64), "ApproachRate": sc(d.approach_rate as f64),
+                "SliderMultiplier": sc(d.slider_multiplier), "SliderTickRate": sc(d.slider_tick_rate)})),
+            "Events" => go!(Events, parse_events, proj_events),
+            _ => go!(Colors, parse_colors, proj_colors),
+        }
+        s.cases += 1;
+        s.nontrivial_key(&format!("{sec}-{run}-{}", out.len()));
+    }
+    s.sample(json!({"section": sec, "first_events": out.iter().skip(1).take(3).cloned().collect::<Vec<_>>()}));
+    s.extra.insert("events".into(), json!(out.len()));
+    write_ndjson(trace, &out);
+}
